@@ -357,6 +357,12 @@ def replay_postfixes(case):
                            regime=core.DeformationRegime(i % 8), n_grains=3 + i, seed=i)
         m.fractions.append(m.fractions[0][::-1].copy())
         m.orientations.append(m.orientations[0][::-1].copy())
+        # "all float64 contents": round-off just outside [0, 1], unnormalised volumes, huge / tiny / signed-zero values,
+        # orientation entries beyond [-1, 1] -- persistence must not touch any bit
+        odd_f = np.resize(np.array([-3e-17, 1.0000000000000002, 2.5, 1e-310, -0.0, 1e300, 0.1 + 0.2]), m.n_grains)
+        odd_o = np.resize(np.array([1.0000000000000002, -1.0000000000000002, 3.5, -0.0, 5e-324, 1 / 3]), m.n_grains * 9).reshape(m.n_grains, 3, 3)
+        m.fractions.append(odd_f)
+        m.orientations.append(odd_o)
         m.save(f, postfix=pf)
         ms[pf] = m
     for pf, m in reversed(list(ms.items())):
@@ -371,8 +377,8 @@ def replay_postfixes(case):
                 problems.append(f"{which}(postfix={pf!r}) raised {type(e).__name__}: {e}")
                 continue
             same = (int(b.phase), int(b.fabric), int(b.regime), int(b.n_grains)) == (int(m.phase), int(m.fabric), int(m.regime), int(m.n_grains)) \
-                and len(b.fractions) == len(m.fractions) and all(np.array_equal(x, y) for x, y in zip(b.fractions, m.fractions)) \
-                and all(np.array_equal(x, y) for x, y in zip(b.orientations, m.orientations))
+                and len(b.fractions) == len(m.fractions) and all(x.tobytes() == y.tobytes() for x, y in zip(b.fractions, m.fractions)) \
+                and all(x.tobytes() == y.tobytes() for x, y in zip(b.orientations, m.orientations))
             if not same:
                 problems.append(f"{which}(postfix={pf!r}) did not restore the mineral")
     return {"reproduced": bool(problems), "detail": problems[:5] or "all minerals recovered"}
